@@ -370,6 +370,10 @@ def simulated_anneal_tree(
         if progbar:
             pbar.update()
 
+    # invalidate any compiled contractions and cached index orderings
+    # (those of un-touched parent nodes depend on the rebuilt children)
+    tree.reset_contraction_indices()
+
     return tree
 
 
